@@ -25,9 +25,11 @@ fn ident() -> BoxedStrategy<String> {
         6 => "[a-z][A-Za-z0-9]{0,8}",
         1 => "[A-Z][A-Za-z0-9]{0,12}",
         1 => "[a-zéß][a-z0-9é世]{0,5}",
+        // identifiers that differ from a keyword only in case (keywords are lower case)
+        1 => select(vec!["Index", "Auto", "Primary", "Unique", "INDEX", "aUTO", "Table", "Simple", "Object", "Enum", "Set", "String", "Int"]).prop_map(|s| s.to_string()),
     ]
     .prop_map(|s| {
-        if KEYWORDS.contains(&s.to_lowercase().as_str()) {
+        if KEYWORDS.contains(&s.as_str()) {
             format!("{}x", s)
         } else {
             s
